@@ -43,6 +43,12 @@ func findVoteHandlers(w *World) []voteHandler {
 				vh = &voteHandler{fn, "Precommit", true, s}
 			}
 			if vh != nil {
+				// the request may be sent from a helper split off from the handler: the handler is the
+				// first *Proofs function up the helper's single-call-site chain
+				vh.fn = w.OwnerIn(fn, func(n string) bool {
+					base := n[strings.LastIndex(n, ".")+1:]
+					return strings.HasSuffix(base, "Proofs") && (strings.HasPrefix(base, "Handle") || strings.HasPrefix(base, "handle"))
+				})
 				out = append(out, *vh)
 			}
 		}
@@ -150,7 +156,7 @@ func runC05(r *Run) {
 		r.Fail("C05.1", "handlers", "", fmt.Sprintf("expected 4 vote handlers sending kernel add requests, found %d", len(hs)))
 	}
 	for _, h := range hs {
-		a := w.A(h.fn)
+		a := w.AU(h.fn)
 		name := FuncName(h.fn)
 		other := "Precommit"
 		if h.kind == "Precommit" {
@@ -209,7 +215,7 @@ func runC05(r *Run) {
 			}
 			// the helper itself: sign bytes of the right kind over its arguments
 			if hf := w.Fn(helper); hf != nil {
-				ha := w.A(hf)
+				ha := w.AU(hf)
 				sb := ha.CallsTo("tmconsensus." + h.kind + "SignBytes")
 				wrong := ha.CallsTo("tmconsensus." + other + "SignBytes")
 				news := ha.CallsTo("gcrypto.CommonMessageSignatureProofScheme.New")
@@ -285,7 +291,7 @@ func runC05(r *Run) {
 	if cf := w.Fn("gcrypto.SignatureProofMergeResult.Combine"); cf == nil {
 		r.Fail("C05.2", "Combine", "", "SignatureProofMergeResult.Combine not found")
 	} else {
-		ca := w.A(cf)
+		ca := w.AU(cf)
 		for _, ret := range ca.Returns() {
 			v := ca.sh.Of(ret.Results[0])
 			b, ok := Match("lit:gcrypto.SignatureProofMergeResult{AllValidSignatures:$av,$...}", v)
@@ -312,8 +318,8 @@ func runC05(r *Run) {
 	// ---------- C05.5 kernel side
 	tmiFns := w.FuncsInPkg("tmmirror/internal/tmi")
 	allowed := map[string]map[string]bool{
-		"PrevoteProofs":   {"tmi.Kernel.addPrevote": true, "tmi.Kernel.copySnapshotView": true},
-		"PrecommitProofs": {"tmi.Kernel.addPrecommit": true, "tmi.Kernel.handleReplayedHeader": true, "tmi.Kernel.copySnapshotView": true},
+		"PrevoteProofs":   {"tmi.Kernel.addPrevote": true},
+		"PrecommitProofs": {"tmi.Kernel.addPrecommit": true, "tmi.Kernel.handleReplayedHeader": true},
 	}
 	ord := Ord{}
 	for _, fn := range tmiFns {
@@ -327,6 +333,10 @@ func runC05(r *Run) {
 			for f, al := range allowed {
 				if strings.HasSuffix(m, "."+f) {
 					con := ord.Next(FuncName(fn) + "#" + f + "[]=")
+					if writesCallerOwnedView(w, fn, up.Map) {
+						r.Pass("C05.5", con, w.InstrPos(in), "fills the round view handed in by the caller (snapshot copy), not kernel state")
+						continue
+					}
 					r.Check(al[FuncName(fn)], "C05.5", con, w.InstrPos(in), "write into a view's "+f+" map ("+truncate(m, 80)+")")
 				}
 			}
@@ -341,7 +351,7 @@ func runC05(r *Run) {
 			r.Fail("C05.5", k.fn, "", "function not found")
 			continue
 		}
-		a := w.A(fn)
+		a := w.AU(fn)
 		// the proof stored is the request's, under the request's block hash key, only when versions match
 		stored := false
 		a.Instrs(func(in ssa.Instruction) {
